@@ -36,7 +36,9 @@ def rules(fx, rep):
     def inline(p):
         import inline as INL
         return p.startswith(FE + '::') or INL.is_private_helper(fx, p)
-    I = exp.Interp(fx, 'mul', inline=inline, conj_as=q**6, frob_q=q)
+    import stdmodel
+    I = exp.Interp(fx, 'mul', inline=inline, conj_as=q**6, frob_q=q, extra_transfer=stdmodel.result_transfer)
+    I.fork_inlined = True
     try:
         res = I.run(FE, [('byref', exp.Lin.atom('f'))])
     except (exp.NotDerivable, exp.Budget) as e:
@@ -59,19 +61,16 @@ def rules(fx, rep):
     rep.check(not other, 'GUARD', 'final_exponentiation:result-shape',
               'every path returns an explicit Some(..) or None',
               'a path returns something that is neither a definite Some nor None: %r' % (other[:1],), where)
-    # GUARD: the only fork is the Option returned by inverse(); Some arm <-> Some result
+    # GUARD: the only fork is the Option returned by inverse(); Some exactly when the inversion succeeded
+    import tt
     ok = True
     detail = []
-    for pth, ret in some_paths:
-        labs = [l for l in pth.labels]
-        if not (len(labs) == 1 and labs[0][0] and labs[0][0][0] == 'inverse' and labs[0][1] == 1):
-            ok = False
-            detail.append('Some returned on path %r' % (labs,))
-    for pth, ret in none_paths:
-        labs = [l for l in pth.labels]
-        if not (len(labs) == 1 and labs[0][0] and labs[0][0][0] == 'inverse' and labs[0][1] == 0):
-            ok = False
-            detail.append('None returned on path %r' % (labs,))
+    for kind, paths, want in (('Some', some_paths, True), ('None', none_paths, False)):
+        for pth, ret in paths:
+            lits = [(k_, t_) for k_, t_, _l in tt.path_literals(pth)]
+            if not (len(lits) == 1 and lits[0][0] and lits[0][0][0] == 'inverse' and lits[0][1] == want):
+                ok = False
+                detail.append('%s returned on path %r' % (kind, lits))
     rep.check(ok and len(some_paths) == 1 and len(none_paths) == 1, 'GUARD', 'final_exponentiation:none-iff-inverse-none',
               'exactly two paths: inverse()==None -> None, inverse()==Some -> Some',
               'failure is not reported exactly when the inversion fails: %s (some=%d none=%d)' % ('; '.join(detail), len(some_paths), len(none_paths)), where)
@@ -94,20 +93,17 @@ def rules(fx, rep):
         for d in (1, 2, 3, 4, 6):
             rep.check(e % (q**d - 1) == 0, 'EXP', 'corollary:subfield-Fq%d-to-1' % d,
                       '(q^%d-1) | e' % d, '(q^%d-1) does not divide e: non-zero elements of F_q^%d are not sent to 1' % (d, d), where)
-    # what does inverse() get applied to?  It must be the input (r), not a derived value.
-    b = fx.body(FE)
-    import facts as F
-    from mirutil import Resolver
-    r = Resolver(b)
+    # what does inverse() get applied to?  It must be the input itself (so that "fails" means f == 0), on every path
     n_inv = 0
-    for bi, t in b.calls():
-        c = F.callee(t)
-        if c and c.get('trait') == 'ff::Field' and c.get('name') == 'inverse':
-            n_inv += 1
-            ref = r.operand_referent(t['args'][0])
-            good = ref is not None and ref[0] == 'place' and ref[1]['l'] == 1 and ref[1]['p'] == [['deref']]
+    for pth, ret, outs in res:
+        invs = [e for e in pth.events if e[0] == 'inverse-of']
+        n_inv += len(invs)
+        for e in invs:
+            good = isinstance(e[1], exp.Lin) and e[1] == exp.Lin.atom('f')
             rep.check(good, 'GUARD', 'final_exponentiation:inverse-of-input',
-                      'inverse() is applied to the input itself', 'inverse() is applied to %r, not to the input' % (ref,), t['span'])
+                      'inverse() is applied to the input itself', 'inverse() is applied to %r, not to the input' % (e[1],), e[2])
+        if len(invs) != 1:
+            rep.fail('GUARD', 'final_exponentiation:inverse-of-input', '%d inversions on a path (expected exactly one, of the input)' % len(invs), where)
     rep.floor('GUARD', 'inverse-call', n_inv, 1)
 
 
